@@ -193,11 +193,49 @@ func listing(l []directory.ServiceInfo) string {
 }
 
 // eventLog subscribes to both signals on a dedicated connection.
-type eventLog struct{ got []string }
+type eventLog struct {
+	got     []string
+	conn    *fx.Conn
+	addedID uint32
+	remID   uint32
+}
+
+// wireOrder checks, on the subscriber's connection, that no serviceRemoved
+// frame of an identifier precedes its serviceAdded frame.
+func (l *eventLog) wireOrder() {
+	seenAdded := map[uint32]bool{}
+	for _, f := range l.conn.In.Frames {
+		if f.Hdr.Type != 5 || len(f.Payload) < 4 { // net.Event
+			continue
+		}
+		id := uint32(f.Payload[0]) | uint32(f.Payload[1])<<8 | uint32(f.Payload[2])<<16 | uint32(f.Payload[3])<<24
+		switch f.Hdr.Action {
+		case l.addedID:
+			seenAdded[id] = true
+		case l.remID:
+			if !seenAdded[id] && id != 1 {
+				vrt.Failf("removed-before-added-on-the-wire", "the serviceRemoved event of service %d was sent before its serviceAdded event", id)
+			}
+		}
+	}
+}
 
 func (d *dirWorld) watch() *eventLog {
 	l := &eventLog{}
-	p := d.client()
+	c := d.w.MustConnect()
+	l.conn = c
+	p, err := directory.ServiceDirectory(dirSession{c})
+	if err != nil {
+		panic(err)
+	}
+	for id, sig := range p.Proxy().MetaObject().Signals {
+		if sig.Name == "serviceAdded" {
+			l.addedID = id
+		}
+		if sig.Name == "serviceRemoved" {
+			l.remID = id
+		}
+	}
 	_, added, err := p.SubscribeServiceAdded()
 	if err != nil {
 		panic(err)
@@ -452,6 +490,7 @@ func remoteClients() {
 		vrt.Failf("not-linearizable", "no sequential order of the registry explains: %s", desc)
 	}
 	checkEvents(ev.got)
+	ev.wireOrder()
 	both := 0
 	for _, o := range ops {
 		if o.Input.(regIn).kind == "register" && o.Output.(regOut).ok {
@@ -596,7 +635,43 @@ func localRemote(fine bool) func() {
 	}
 }
 
+// pipelined: one client makes a service ready and unregisters it at once.
+func pipelined() {
+	d := startDirectory()
+	p := d.client()
+	ev := d.watch()
+	vrt.Explore()
+	w1 := vrt.GoWorker("client", func() {
+		for _, n := range []string{"a", "b"} {
+			id, err := p.RegisterService(info(n, 0, "tcp://x"))
+			if err != nil {
+				vrt.Failf("answer-differs/register", "register(%s) failed: %v", n, err)
+				return
+			}
+			if err := p.ServiceReady(id); err != nil {
+				vrt.Failf("answer-differs/ready", "ready(%d) failed: %v", id, err)
+			}
+			if err := p.UnregisterService(id); err != nil {
+				vrt.Failf("answer-differs/unregister", "unregister(%d) failed: %v", id, err)
+			}
+		}
+	})
+	vrt.Quiesce()
+	fx.Settle(w1)
+	checkEvents(ev.got)
+	ev.wireOrder()
+	want := "added(2,a) added(3,b) removed(2,a) removed(3,b)"
+	got := append([]string(nil), ev.got...)
+	sort.Strings(got)
+	if strings.Join(got, " ") != want {
+		vrt.Failf("events-differ/pipelined", "events received %v, expected %s", ev.got, want)
+	}
+	vrt.Observe("%v", ev.got)
+}
+
 func init() {
+	reg.Register(&reg.Scenario{Property: "C15", Name: "ready-then-unregister", Body: pipelined, Quick: 2, Thorough: 3,
+		Doc: "one client: register, ready, unregister of a and b without pause; events exactly once and added before removed on the subscriber's connection"})
 	reg.Register(&reg.Scenario{Property: "C15", Name: "sequential-3", Body: sequential(3), Quick: 0, Thorough: 0,
 		Doc: "all sequences of <=3 operations of a 23-operation alphabet (register/ready/unregister/update/service/services over names a,b,'' and ids 1..4) through a remote proxy, compared step by step with the reference registry; events compared at the end"})
 	reg.Register(&reg.Scenario{Property: "C15", Name: "sequential-4", Body: sequential(4), Quick: -1, Thorough: 0,
